@@ -7,6 +7,7 @@
 (c) component render sequences under cache sizes {0,1,2,128}: outputs identical (metamorphic).
 """
 import itertools
+import sys
 from collections import OrderedDict
 
 from vf import env
@@ -275,9 +276,30 @@ def run_render_seq(seq, ncls):
                 cls = type("VfK%d" % i, (Component,), {"template": tpl, "get_context_data": gcd})
                 registry.register("k%d" % i, cls)
                 classes.append(cls)
+            # two components whose template FILES have identical text but live in different directories and include a
+            # sibling partial by a relative path: the compiled templates differ although the sources are equal
+            for j, d in enumerate(("c18a", "c18b")):
+                env.write_file("%s/t.html" % d, "<f>{{ v }}{% include './part.html' %}</f>", kind="components")
+                env.write_file("%s/part.html" % d, "P-%s" % d, kind="components")
+
+                def gcd2(self, v=None):
+                    return {"v": v}
+
+                cls = type("VfF%d" % j, (Component,), {"template_file": "%s/t.html" % d, "get_context_data": gcd2})
+                cls.__module__ = "vfgen.c18files"
+                if cls.__module__ not in sys.modules:
+                    import types as _types
+
+                    _m = _types.ModuleType(cls.__module__)
+                    _m.__file__ = None  # a file-less module: paths are relative to COMPONENTS.dirs only
+                    sys.modules[cls.__module__] = _m
+                registry.register("k%d" % (ncls + j), cls)
+                classes.append(cls)
             res = []
             try:
                 for ci, val in seq:
+                    if ci >= 4:  # 4 / 5 = the two file-based components
+                        ci = ncls + (ci - 4)
                     page = Template("{%% component 'k%d' v=val %%}F{{ val }}{%% endcomponent %%}" % ci)
                     res.append(normalize_ids(page.render(Context({"val": val}))))
                     res.append(normalize_ids(classes[ci].render(kwargs={"v": val}, render_dependencies=False)))
@@ -380,7 +402,7 @@ def run_shard(spec):
             {
                 "part": st.just("rs"),
                 "ncls": st.integers(4, 6),
-                "seq": st.lists(st.tuples(st.integers(0, 3), st.sampled_from(["x", "<b>", "y&z", 7])).map(list), min_size=3, max_size=12),
+                "seq": st.lists(st.tuples(st.integers(0, 5), st.sampled_from(["x", "<b>", "y&z", 7])).map(list), min_size=3, max_size=12),
             }
         )
 
